@@ -202,6 +202,133 @@ def starts_with_hash(tree):
     return bool(items) and items[0] == (sre.LITERAL, ord('#'))
 
 
+def parse_template(repl):
+    """A replacement template as [('lit', text) | ('ref', group number)]; None when it uses forms not followed here."""
+    out, buf, i = [], '', 0
+    esc = {'n': '\n', 't': '\t', 'r': '\r', 'f': '\f', 'v': '\v', '\\': '\\'}
+    while i < len(repl):
+        c = repl[i]
+        if c != '\\':
+            buf += c
+            i += 1
+            continue
+        if i + 1 >= len(repl):
+            return None
+        d = repl[i + 1]
+        if d.isdigit():
+            j = i + 2
+            while j < len(repl) and repl[j].isdigit():
+                j += 1
+            digits = repl[i + 1:j]
+            if digits[0] == '0' or len(digits) > 2:
+                return None                     # octal escapes
+            if buf:
+                out.append(('lit', buf))
+                buf = ''
+            out.append(('ref', int(digits)))
+            i = j
+        elif d == 'g':
+            m = re.match(r'g<(\d+)>', repl[i + 1:])
+            if m is None:
+                return None
+            if buf:
+                out.append(('lit', buf))
+                buf = ''
+            out.append(('ref', int(m.group(1))))
+            i += 1 + m.end()
+        elif d in esc:
+            buf += esc[d]
+            i += 2
+        else:
+            return None
+    if buf:
+        out.append(('lit', buf))
+    return out
+
+
+def single_char_set(item):
+    """(set of characters, capturing group number or None) when the pattern item matches exactly one character out of a finite
+    set that is spelled out; None otherwise."""
+    op, av = item
+    if op == sre.LITERAL:
+        return {chr(av)}, None
+    if op == sre.IN:
+        out = set()
+        for iop, iav in av:
+            if iop == sre.LITERAL:
+                out.add(chr(iav))
+            elif iop == sre.RANGE and iav[1] - iav[0] <= 64:
+                out.update(chr(c) for c in range(iav[0], iav[1] + 1))
+            else:
+                return None
+        return (out, None) if out else None
+    if op == sre.SUBPATTERN:
+        group, add, dele, inner = av
+        inner = list(inner)
+        if add or dele or len(inner) != 1:
+            return None
+        r = single_char_set(inner[0])
+        if r is None or r[1] is not None:
+            return None
+        return r[0], group
+    if op == sre.BRANCH:
+        out = set()
+        for alt in av[1]:
+            alt = list(alt)
+            if len(alt) != 1:
+                return None
+            r = single_char_set(alt[0])
+            if r is None or r[1] is not None:
+                return None
+            out |= r[0]
+        return out, None
+    return None
+
+
+def padding_substitution(tree, repl):
+    """re.sub(pattern, repl, .) as a rewrite that keeps one matched character and surrounds it with blanks.
+    ('pad', [(char, replacement)]) - the same as str.replace per character; ('deletes', description) - the match also covers
+    text that the template does not reproduce and that need not be blank; None - something else."""
+    tpl = parse_template(repl)
+    if tpl is None:
+        return None
+    refs = [(i, n) for i, (k, n) in enumerate(tpl) if k == 'ref']
+    if len(refs) != 1 or not all(c in ' \t' for k, t in tpl if k == 'lit' for c in t):
+        return None
+    at, ref = refs[0]
+    pre = ''.join(t for k, t in tpl[:at] if k == 'lit')
+    post = ''.join(t for k, t in tpl[at + 1:] if k == 'lit')
+    items = list(tree)
+    parts = [(it, single_char_set(it)) for it in items]
+    if len(parts) == 1 and parts[0][1] is not None:
+        chars, group = parts[0][1]
+        if ref == 0 or (group is not None and ref == group):
+            if any(c.isspace() for c in chars):
+                return None
+            return 'pad', [(c, pre + c + post) for c in sorted(chars)]
+        return None
+    kept = [i for i, (it, r) in enumerate(parts) if r is not None and r[1] is not None and r[1] == ref]
+    if len(kept) != 1:
+        return None
+    chars = parts[kept[0]][1][0]
+    if any(c.isspace() for c in chars):
+        return None
+    dropped_text = False
+    for i, (it, r) in enumerate(parts):
+        if i == kept[0]:
+            continue
+        if it[0] == sre.AT:
+            return None
+        cs, _cap = regex_chars([it])
+        if cs is None or not all(x == SPACE or (x[0] == 'LITERAL' and chr(x[1]).isspace()) for x in cs):
+            dropped_text = True
+    if dropped_text:
+        return 'deletes', 'the match extends over text next to {} that the replacement {!r} does not put back'.format(sorted(chars), repl)
+    if pre and post:
+        return 'pad', [(c, pre + c + post) for c in sorted(chars)]      # blanks around the character are swallowed and re-inserted
+    return None
+
+
 def _sepish(c):
     return c.isspace() or c == ','
 
@@ -307,11 +434,11 @@ class Rx(Val):
 
 
 class Match(Val):
-    def __init__(self, rx, text):
-        self.rx, self.text = rx, text
+    def __init__(self, rx, text, how='match'):
+        self.rx, self.text, self.how = rx, text, how
 
     def _key(self):
-        return (self.rx, self.text)
+        return (self.rx, self.text, self.how)
 
 
 class Tup(Val):
@@ -522,6 +649,40 @@ def assigned_names(stmts):
     return out
 
 
+def lift(v):
+    """A folded Python constant as an abstract value (containers element-wise)."""
+    if isinstance(v, tuple):
+        return Tup([lift(x) for x in v])
+    if isinstance(v, list):
+        return ListLit([lift(x) for x in v])
+    return K(v)
+
+
+def literal_items(v):
+    """The elements of a literal list / tuple value, or None."""
+    if isinstance(v, (ListLit, Tup)):
+        return list(v.items)
+    if isinstance(v, K) and isinstance(v.value, (list, tuple)):
+        return [lift(x) for x in v.value]
+    return None
+
+
+def leaves_iteration_early(body):
+    """break / continue that belong to this loop (not to a nested one)."""
+    todo = list(body)
+    while todo:
+        n = todo.pop()
+        if isinstance(n, (ast.Break, ast.Continue)):
+            return True
+        if isinstance(n, (ast.For, ast.AsyncFor, ast.While)):
+            todo.extend(n.orelse)
+            continue
+        if isinstance(n, (ast.FunctionDef, ast.AsyncFunctionDef, ast.ClassDef, ast.Lambda)):
+            continue
+        todo.extend(ast.iter_child_nodes(n))
+    return False
+
+
 def target_names(t):
     if isinstance(t, ast.Name):
         return {t.id}
@@ -576,6 +737,8 @@ class Flow:
         st = f.assign_nodes.get(name)
         if st is not None and isinstance(st.value, ast.Call) and dotted(st.value.func) == 're.compile':
             return self.eval(st.value, {})
+        if st is not None and isinstance(st.value, (ast.List, ast.Tuple)) and name not in f.consts:
+            return self.eval(st.value, {})          # a literal table whose entries are not all constants (compiled patterns ...)
         if name in f.consts:
             v = f.consts[name]
             if isinstance(v, (str, int, bool, type(None), bytes, tuple, list, float)):
@@ -840,7 +1003,10 @@ class Flow:
             r = self._str(repl)
             if r is None:
                 return subject.then(Op('unknown', 're.sub with a computed replacement', node=node))
-            return subject.then(self.sub_op(rx.pattern, r, node))
+            out = subject
+            for op in self.sub_ops(rx.pattern, r, node):
+                out = out.then(op)
+            return out
         if meth == 'split':
             names = ['string', 'maxsplit', 'flags']
             a = dict(zip(names, args))
@@ -853,21 +1019,29 @@ class Flow:
             return Toks(subject, separator_info(rx.pattern), False, node)
         if meth in ('match', 'search', 'fullmatch'):
             subject = args[0] if args else kw.get('string')
-            return Match(rx, subject)
+            return Match(rx, subject, meth)
         return Unk('re.' + meth)
 
-    def sub_op(self, pattern, repl, node):
+    def sub_ops(self, pattern, repl, node):
+        """The operations on the line text that re.sub(pattern, repl, text) amounts to (decided from the pattern AST and the
+        replacement template)."""
         tree = regex_ast(pattern)
         if is_comment_pattern(tree) and all(c.isspace() for c in repl):
-            return Op('comment', node=node)
+            return [Op('comment', node=node)]
         if starts_with_hash(tree):
-            return Op('hash-other', pattern, node=node)
+            return [Op('hash-other', pattern, node=node)]
         chars, _cap = regex_chars(tree)
         lo, _hi = tree.getwidth()
         if (chars is not None and lo >= 1 and repl and all(_sepish(c) for c in repl)
                 and all(i == SPACE or i == COMMA or (i[0] == 'LITERAL' and chr(i[1]).isspace()) for i in chars)):
-            return Op('sepnorm', pattern, repl, node=node)
-        return Op('unknown', 're.sub({!r}, {!r})'.format(pattern, repl), node=node)
+            return [Op('sepnorm', pattern, repl, node=node)]
+        pads = padding_substitution(tree, repl)
+        if pads is not None:
+            kind, detail = pads
+            if kind == 'pad':
+                return [Op('replace', c, new, node=node) for c, new in detail]
+            return [Op('deletes', pattern, repl, detail, node=node)]
+        return [Op('unknown', 're.sub({!r}, {!r})'.format(pattern, repl), node=node)]
 
     def call_method(self, recv, attr, args, kw, node, env):
         if isinstance(recv, Rx):
@@ -1281,7 +1455,9 @@ class Flow:
             env[target.id] = value
         elif isinstance(target, (ast.Tuple, ast.List)):
             items = None
-            if isinstance(value, Tup) and len(value.items) == len(target.elts) and not any(isinstance(e, ast.Starred) for e in target.elts):
+            if isinstance(value, K) and isinstance(value.value, (tuple, list)):
+                value = lift(value.value)
+            if isinstance(value, (Tup, ListLit)) and len(value.items) == len(target.elts) and not any(isinstance(e, ast.Starred) for e in target.elts):
                 items = value.items
             for i, e in enumerate(target.elts):
                 if isinstance(e, ast.Starred):
@@ -1482,6 +1658,14 @@ class Flow:
 
     def s_For(self, st, env):
         it = self.eval(st.iter, env)
+        items = literal_items(it)
+        if items is not None and len(items) <= 32 and not st.orelse and not leaves_iteration_early(st.body):
+            # a loop over a literal table: one copy of the body per entry, in order
+            for el in items:
+                self.bind(st.target, el, env)
+                if self.run_block(st.body, env):
+                    return True
+            return False
         pre = dict(env)
         body_env = dict(env)
         assigned = assigned_names(st.body)
@@ -1585,8 +1769,8 @@ def describe_ops(ops):
 
 
 def guard_is_match(flow, guards):
-    """Some enclosing condition says: a regular expression matched the line text."""
-    for test, truth, genv in guards:
+    """Some enclosing condition says: a regular expression matched the line text.  -> that Match (innermost), or None."""
+    for test, truth, genv in reversed(guards):
         if not isinstance(test, ast.AST) or isinstance(test, ast.ExceptHandler):
             continue
         t = test
@@ -1603,8 +1787,8 @@ def guard_is_match(flow, guards):
         else:
             v = flow.eval(t, dict(genv))
         if want and isinstance(v, Match) and isinstance(v.text, Text) and v.text.root == 'contents':
-            return True
-    return False
+            return v
+    return None
 
 
 def guard_is_empty_text(flow, guards):
@@ -1641,8 +1825,10 @@ def check_lexer(rep, facts):
             rep.count('lexer paths analysed')
         elif isinstance(toks, ListLit) and toks.items and isinstance(toks.items[0], K) and isinstance(toks.items[0].value, str):
             # the special-cased `string` / `error` lines (custom lexing, documented: the rest of the line is the literal)
-            if not guard_is_match(flow, guards):
+            m = guard_is_match(flow, guards)
+            if m is None:
                 raise AnalysisError('lex_tokens: a literal token list is returned without a pattern match on the line text: ' + unparse(node)[:80])
+            decide_literal_line(rep, toks.items[0].value, m, node)
             rep.count('lexer paths analysed')
         else:
             raise AnalysisError('lex_tokens: cannot follow the line text to the returned token list in `{}` ({!r})'.format(unparse(node)[:80], toks))
@@ -1653,6 +1839,41 @@ def check_lexer(rep, facts):
         rep.count('lexer paths analysed')
         pats.append(decide_token_path(rep, toks, node))
     return pats[0]
+
+
+def decide_literal_line(rep, keyword, m, ret):
+    """A line kind with custom lexing (`string ...`, `error ...`): recognised by a pattern on the line text.  R13.5: the
+    recognition must not depend on the indentation of the line, or an indented data line falls through to the token split."""
+    text = m.text
+    if any(o.kind != 'strip' or o.args[1] is not None for o in text.ops):
+        raise AnalysisError('lex_tokens: the `{}` line kind is recognised on a rewritten line text ({}): outside the rules'.format(keyword, describe_ops(text.ops)))
+    items = list(regex_ast(m.rx.pattern))
+    if m.rx.flags:
+        raise AnalysisError('lex_tokens: the pattern of the `{}` line kind is compiled with flags'.format(keyword))
+    if items and items[0][0] == sre.AT and items[0][1] in (sre.AT_BEGINNING, sre.AT_BEGINNING_STRING):
+        items = items[1:]
+    elif m.how == 'search':
+        raise AnalysisError('lex_tokens: the `{}` line kind is searched for anywhere in the line: outside the rules'.format(keyword))
+    if m.how not in ('match', 'fullmatch', 'search'):
+        raise AnalysisError('lex_tokens: {} on the line text is outside the rules'.format(m.how))
+    rest = _skip_optional_space(items)
+    leading_ws = len(rest) < len(items) and items[0][1][1] == sre.MAXREPEAT
+    if not leading_ws:
+        rest = items
+    word = ''
+    for op, av in rest:
+        if op == sre.LITERAL and not chr(av).isspace():
+            word += chr(av)
+        else:
+            break
+    if word != keyword:
+        raise AnalysisError('lex_tokens: lines matching {!r} are lexed as `{}` lines: which line kind the pattern stands for is not decided here'.format(m.rx.pattern, keyword))
+    stripped = any(o.args[0] in ('left', 'both') for o in text.ops)
+    rep.check(leading_ws or stripped, 'R13.5.indent', 'an indented `{}` line is still lexed as a {} literal'.format(keyword, keyword),
+              lambda: Finding('R13.5.indent', 'lex_tokens', ret,
+                              'the `{}` line kind is recognised by {!r} at the very start of the line text only: an indented `{} ...` line falls through '
+                              'to the token split (whitespace runs collapse, `#` starts a comment) and assembles differently'.format(keyword, m.rx.pattern, keyword),
+                              line=getattr(ret, 'lineno', None)))
 
 
 def decide_token_path(rep, toks, ret):
@@ -1674,6 +1895,7 @@ def decide_token_path(rep, toks, ret):
     hash_other = None
     stripped = False         # True / False / None (unknown): no leading / trailing whitespace at the split
     extra_seps = set()
+    deleted = []
     for i, o in enumerate(text.ops):
         if o.kind == 'comment':
             if comment_at is None:
@@ -1721,6 +1943,8 @@ def decide_token_path(rep, toks, ret):
         elif o.kind == 'sepnorm':
             if stripped:
                 stripped = None
+        elif o.kind == 'deletes':
+            deleted.append(o)
     eff = set(sep.chars) | extra_seps
     # --- R13.3 separators
     others = sorted(c for c in eff if not (c == SPACE or c == COMMA or (c[0] == 'LITERAL' and chr(c[1]).isspace())))
@@ -1744,6 +1968,13 @@ def decide_token_path(rep, toks, ret):
               lambda: Finding('R13.3.separators', 'lex_tokens', sp,
                               'the token separator {} (with the replacements before it) does not consume exactly runs of whitespace and commas ({}): '
                               '`addi x1, x0, 1` and `addi x1 x0 1` no longer lex alike'.format(sep.text, '; '.join(why)), line=getattr(sp, 'lineno', None)))
+    for o in deleted:
+        rep.fail(Finding('R13.3.separators', 'lex_tokens', o.node or sp,
+                         're.sub({!r}, {!r}) rewrites the line text before it is split and loses characters: {}; whether a blank is written '
+                         'at that place now changes the tokens'.format(o.args[0], o.args[1], o.args[2]), line=getattr(o.node or sp, 'lineno', None)),
+                 instance='no text is deleted before the split')
+    if not deleted:
+        rep.ok('R13.3.separators', 'no text is deleted before the split', nontrivial=False)
     # --- R13.4 comments
     first = text.ops[0].node if text.ops and text.ops[0].node is not None else sp
     msg = 'comments are not stripped on the way from the line text to the token split (chain: {}): a trailing `# comment` would contribute tokens'.format(kinds)
